@@ -804,19 +804,75 @@ func c13HTTPS(c *Ctx) {
 			}
 		}
 	}
-	// event fields in Handle
-	n := 0
-	for _, call := range Calls(h) {
-		f := call.Common().StaticCallee()
-		if f == nil || f.Name() != "Custom" || !strings.HasSuffix(PkgOf(f), "/event") {
+	// the recorder form: `seen := &httpsHello{..}; GetCertificate: seen.getCertificate` – a bound method that stores into
+	// fields of the connection's own recorder object
+	type fcell struct {
+		a *ssa.Alloc
+		f int
+	}
+	fieldCells := map[fcell]string{}
+	helloSrc := func(v ssa.Value, hp ssa.Value) string {
+		if call, ok := v.(*ssa.Call); ok {
+			if f := call.Call.StaticCallee(); f != nil && f.Name() == "JA3Digest" && len(call.Call.Args) == 1 && call.Call.Args[0] == hp {
+				return "(*tls.ClientHelloInfo).JA3Digest(p0)"
+			}
+		}
+		if ld, ok := v.(*ssa.UnOp); ok && ld.Op == token.MUL {
+			if fa, ok := ld.X.(*ssa.FieldAddr); ok && fa.X == hp && fieldNameOf(fa) == "ServerName" {
+				return "p0.ServerName"
+			}
+		}
+		return Render(v)
+	}
+	for _, mc := range MakeClosures(h) {
+		cf := mc.Fn.(*ssa.Function)
+		if !strings.Contains(cf.Synthetic, "bound method") || len(mc.Bindings) != 1 {
 			continue
 		}
+		recvA, ok := mc.Bindings[0].(*ssa.Alloc)
+		if !ok {
+			continue
+		}
+		var m *ssa.Function
+		for _, call := range Calls(cf) {
+			if f := call.Common().StaticCallee(); f != nil && InRepo(f) && f.Blocks != nil {
+				m = f
+			}
+		}
+		if m == nil || len(m.Params) != 2 || NamedOf(m.Params[1].Type()) == nil || NamedOf(m.Params[1].Type()).Obj().Name() != "ClientHelloInfo" {
+			continue
+		}
+		for _, b := range m.Blocks {
+			for _, in := range b.Instrs {
+				st, ok := in.(*ssa.Store)
+				if !ok {
+					continue
+				}
+				fa, ok := st.Addr.(*ssa.FieldAddr)
+				if !ok || fa.X != ssa.Value(m.Params[0]) {
+					continue
+				}
+				src := helloSrc(st.Val, m.Params[1])
+				if b != m.Blocks[0] {
+					src += " (conditional)"
+				}
+				k := fcell{recvA, fa.Field}
+				if prev, dup := fieldCells[k]; dup {
+					src = prev + " | " + src
+				}
+				fieldCells[k] = src
+			}
+		}
+	}
+	// event fields in Handle, and in helpers of the package that Handle calls with the values as arguments
+	n := 0
+	judge := func(call ssa.CallInstruction, at ssa.Instruction, resolve func(ssa.Value) ssa.Value) {
 		k, ok := ConstString(call.Common().Args[0])
 		if !ok || (k != "https.ja3-digest" && k != "https.server-name") {
-			continue
+			return
 		}
 		n++
-		v := Unwrap(call.Common().Args[1])
+		v := Unwrap(resolve(Unwrap(call.Common().Args[1])))
 		src := ""
 		if ld, ok := v.(*ssa.UnOp); ok {
 			if a, ok := ld.X.(*ssa.Alloc); ok {
@@ -828,12 +884,56 @@ func c13HTTPS(c *Ctx) {
 					}
 				}
 			}
+			if fa, ok := ld.X.(*ssa.FieldAddr); ok {
+				if a, ok := fa.X.(*ssa.Alloc); ok {
+					src = fieldCells[fcell{a, fa.Field}]
+					for _, b := range h.Blocks {
+						for _, in := range b.Instrs {
+							if st, isSt := in.(*ssa.Store); isSt {
+								if fa2, isFA := st.Addr.(*ssa.FieldAddr); isFA && fa2.X == fa.X && fa2.Field == fa.Field {
+									if s, isS := ConstString(st.Val); !isS || s != "" {
+										src += " + local store " + Render(st.Val)
+									}
+								}
+							}
+						}
+					}
+				}
+			}
 		}
 		want := "(*tls.ClientHelloInfo).JA3Digest(p0)"
 		if k == "https.server-name" {
 			want = "p0.ServerName"
 		}
-		c.Check(src == want, "https-event-fields", fmt.Sprintf("%s site[%d]", k, n), p.InstrPos(call), "= "+want+" captured in GetCertificate", "event field "+k+" does not carry "+want+" of the connection's ClientHello (got `"+src+"`)")
+		c.Check(src == want, "https-event-fields", fmt.Sprintf("%s site[%d]", k, n), p.InstrPos(at), "= "+want+" captured in GetCertificate", "event field "+k+" does not carry "+want+" of the connection's ClientHello (got `"+src+"`)")
+	}
+	isCustom := func(call ssa.CallInstruction) bool {
+		f := call.Common().StaticCallee()
+		return f != nil && f.Name() == "Custom" && strings.HasSuffix(PkgOf(f), "/event") && len(call.Common().Args) == 2
+	}
+	for _, call := range Calls(h) {
+		if isCustom(call) {
+			judge(call, call, func(v ssa.Value) ssa.Value { return v })
+			continue
+		}
+		g := call.Common().StaticCallee()
+		if g == nil || !InRepo(g) || g.Blocks == nil || PkgOf(g) != PkgOf(h) || g == h {
+			continue
+		}
+		site := call
+		for _, c2 := range Calls(g) {
+			if !isCustom(c2) {
+				continue
+			}
+			judge(c2, site, func(v ssa.Value) ssa.Value {
+				if par, ok := v.(*ssa.Parameter); ok {
+					if i := paramIdx(par); i >= 0 && i < len(site.Common().Args) {
+						return site.Common().Args[i]
+					}
+				}
+				return v
+			})
+		}
 	}
 	c.Floor("https-event-fields", 4, "two fields at two event sites")
 }
